@@ -25,6 +25,8 @@ type crashCase struct {
 	Init   *string `json:"init"`
 	Mode   uint32  `json:"mode"`
 	SubDir bool    `json:"subdir"` // config lives in a directory that does not exist yet (only with Init == nil)
+	Depth   int    `json:"depth,omitempty"`   // number of missing directory levels (0 = 1)
+	Symlink bool   `json:"symlink,omitempty"` // the config path is a symbolic link (only with Init != nil)
 	Op     opx     `json:"cop"`
 	K      int     `json:"k"` // -1: every k
 }
@@ -63,6 +65,8 @@ func childMain() {
 
 type crashDir struct {
 	base, dir, path string
+	levels          []string // missing directory levels, outermost first
+	target          string   // link target when the config path is a symlink
 }
 
 func (cc crashCase) prepare() crashDir {
@@ -72,7 +76,7 @@ func (cc crashCase) prepare() crashDir {
 	}
 	d := crashDir{base: base, dir: base}
 	if cc.SubDir && cc.Init == nil {
-		d.dir = filepath.Join(base, "cfgdir")
+		d.dir, d.levels = subDirs(base, true, cc.Depth)
 	}
 	d.path = filepath.Join(d.dir, "config.json")
 	if cc.Init != nil {
@@ -80,10 +84,21 @@ func (cc crashCase) prepare() crashDir {
 		if mode == 0 {
 			mode = 0o644
 		}
-		if err := os.WriteFile(d.path, []byte(*cc.Init), mode); err != nil {
+		real := d.path
+		if cc.Symlink {
+			os.Mkdir(filepath.Join(base, "real"), 0o755)
+			d.target = filepath.Join(base, "real", "target.json")
+			real = d.target
+		}
+		if err := os.WriteFile(real, []byte(*cc.Init), mode); err != nil {
 			panic(err)
 		}
-		os.Chmod(d.path, mode)
+		os.Chmod(real, mode)
+		if cc.Symlink {
+			if err := os.Symlink(d.target, d.path); err != nil {
+				panic(err)
+			}
+		}
 	}
 	return d
 }
@@ -113,13 +128,18 @@ func hexOr(b []byte) string {
 
 func observeDir(d crashDir, dirExisted bool) dirObs {
 	var o dirObs
-	o.dirMode = "-"
-	if st, err := os.Stat(d.dir); err == nil {
-		if dirExisted {
-			o.dirMode = "755" // a directory the harness made itself: reported with the mode given to the model
-		} else {
-			o.dirMode = fmt.Sprintf("%o", st.Mode().Perm())
+	if dirExisted {
+		o.dirMode = "755" // a directory the harness made itself: reported with the mode given to the model
+	} else {
+		var ms []string
+		for _, l := range d.levels {
+			if st, err := os.Stat(l); err == nil {
+				ms = append(ms, fmt.Sprintf("%o", st.Mode().Perm()))
+			} else {
+				ms = append(ms, "-")
+			}
 		}
+		o.dirMode = strings.Join(ms, ",")
 	}
 	o.cfg, o.tmp = "ABSENT", "ABSENT"
 	if data, err := os.ReadFile(d.path); err == nil {
@@ -257,9 +277,16 @@ func runCrash(cc crashCase) {
 			}
 		}
 	}
-	dm := "-"
-	if dirExisted {
-		dm = "493" // 0755
+	dm := "493" // 0755: one existing level
+	if !dirExisted {
+		dm = strings.TrimSuffix(strings.Repeat("-,", len(d1.levels)), ",")
+	}
+	nchain := 1
+	if !dirExisted {
+		nchain = len(d1.levels)
+	}
+	if cc.Symlink && cc.Init != nil {
+		run.Count("crash:symlinked-path")
 	}
 	sizes := make([]string, len(chunks))
 	for i, c := range chunks {
@@ -303,7 +330,7 @@ func runCrash(cc crashCase) {
 		}
 		obs := observeDir(d, dirExisted)
 		run.Case(id, fmt.Sprintf("K %s %s %d %d 0 %d %s", dm, oldTok, oldMode, steps, len(chunks), strings.Join(chunks, " ")),
-			fmt.Sprintf("STEPS %d DIR %s CFG %s TMP %s", 5+len(chunks), obs.dirMode, obs.cfg, obs.tmp))
+			fmt.Sprintf("STEPS %d DIR %s CFG %s TMP %s", nchain+4+len(chunks), obs.dirMode, obs.cfg, obs.tmp))
 		run.Count("crash:killed-before-" + rec.Calls[win[k]].Name)
 		if done > 0 {
 			run.Nontrivial(fmt.Sprintf("K|%v|%v|%d", cc.Init, cc.Op, k))
@@ -322,6 +349,11 @@ func runCrash(cc crashCase) {
 		default:
 			fail(id, "crash-torn", fmt.Sprintf("config file is neither the old nor the new document after a kill before call %d (%s): %d bytes",
 				k, rec.Calls[win[k]].Name, len(obs.cfgData)), k)
+		}
+		if d.target != "" {
+			if after, err := os.ReadFile(d.target); err != nil || (string(after) != *cc.Init && string(after) != string(newc)) {
+				fail(id, "symlink-target-damaged", fmt.Sprintf("the symlink target is neither the old nor the new document after a kill before call %d", k), k)
+			}
 		}
 		for i, t := range obs.tmps {
 			if obs.tmpModes[i] != 0o600 {
@@ -364,7 +396,7 @@ func runPlain(c crashkit.Cmd) error {
 func genCrash(r *common.Rand) crashCase {
 	hc := genHistory(r, 1)
 	cc := crashCase{Kind: "K", K: -1}
-	cc.Init, cc.Mode, cc.SubDir = hc.Init, hc.Mode, hc.SubDir
+	cc.Init, cc.Mode, cc.SubDir, cc.Depth, cc.Symlink = hc.Init, hc.Mode, hc.SubDir, hc.Depth, hc.Symlink
 	cc.Op = opx{Op: "P", Addr: genAddr(r), U: strings.ReplaceAll(genPart(r), ":", ""), P: genPart(r), R: genPart(r)}
 	if cc.Init != nil && r.Intn(3) == 0 {
 		if d, ok := parseJSON([]byte(*cc.Init)); ok {
